@@ -67,6 +67,7 @@ type HistCfg struct {
 	PForbidden int
 	PRestart   int
 	HeavyFork  int // per cent: sibling with much more work
+	DupMerkle  int // per cent: reuse the merkle root of a known header (C02 only)
 }
 
 // Hist drives one ingestion history against the world and the model, comparing after every step.
@@ -139,6 +140,9 @@ func (h *Hist) DrawCfg(maxOpsCap int) {
 	c.PForbidden = t.Range(0, 8, "p-forb")
 	c.PRestart = t.Range(0, 8, "p-restart")
 	c.HeavyFork = t.Range(0, 40, "p-heavy")
+	if h.r.Prop == "C02" {
+		c.DupMerkle = t.Range(0, 25, "p-dup-merkle")
+	}
 	switch c.Palette {
 	case "uniform":
 		h.palette = []uint32{bitsNormal[t.Draw(len(bitsNormal), "bits0")]}
@@ -245,6 +249,9 @@ func (h *Hist) NewHeader() RawHeader {
 	}
 	raw.Time = h.baseTs + h.ctr*600
 	raw.Nonce = h.ctr
+	if c.DupMerkle > 0 && t.Chance(c.DupMerkle, 100, "dup-merkle") {
+		raw.Merkle = h.m.Headers[t.Draw(len(h.m.Headers), "dup-merkle-of")].Raw.Merkle
+	}
 	if c.Extremes {
 		switch t.Pick([]int{70, 6, 6, 6, 6, 6}, "extreme") {
 		case 1:
@@ -621,6 +628,19 @@ func (h *Hist) StepOp(i int) bool {
 		h.Restart()
 	}
 	return true
+}
+
+// ExtendBest appends n plain headers to the best chain without the per-step full comparison (long-chain classes).
+func (h *Hist) ExtendBest(n int) {
+	skip := h.SkipChecks
+	h.SkipChecks = true
+	for i := 0; i < n; i++ {
+		raw := RawHeader{Prev: h.m.Best().Hash, Merkle: h.uniqueHash("merkle"), Version: 0x20000000, Bits: bitsNormal[0]}
+		raw.Time = h.baseTs + h.ctr*600
+		raw.Nonce = h.ctr
+		h.Submit(raw, "extend")
+	}
+	h.SkipChecks = skip
 }
 
 func boolInt(b bool) int {
